@@ -229,6 +229,32 @@ func checkC09(w *World, c *Check, tier string) {
 		}
 	}
 
+	// ---- nopanic: comparing two interface values with == panics at run time when their dynamic type is not
+	// comparable; item lists (ItemCollection, IRIs) and the value forms of the vocabulary structs (which hold slices)
+	// are such types, so no two item-like interface values may be compared with == / != anywhere in the package ----
+	ncmp := 0
+	for _, f := range w.Funcs {
+		cnt := 0
+		for _, b := range f.Blocks {
+			for _, in := range b.Instrs {
+				bo, ok := in.(*ssa.BinOp)
+				if !ok || (bo.Op != token.EQL && bo.Op != token.NEQ) {
+					continue
+				}
+				if w.itemLikeIface(bo.X.Type()) == nil || w.itemLikeIface(bo.Y.Type()) == nil {
+					continue
+				}
+				if isNilConst(bo.X) || isNilConst(bo.Y) {
+					continue
+				}
+				ncmp++
+				cnt++
+				c.bad("C09.nopanic", fmt.Sprintf("%s:iface-compare#%d", funcName(f), cnt), w.InstrPos(bo), fmt.Sprintf("%s compares two items with %s on the interface values: when both hold an item list or a value-form struct the comparison panics (uncomparable type), so equality/Contains on such values crashes", funcName(f), bo.Op))
+			}
+		}
+	}
+	c.ok("C09.nopanic", "scan", "-", fmt.Sprintf("%d interface-to-interface comparisons of items in the package", ncmp))
+
 	// ---- setloop ----
 	checkSetLoops(w, c, "C09.setloop", []string{"NaturalLanguageValues", "ItemCollection", "IRIs"})
 }
